@@ -1737,14 +1737,17 @@ func main() {
 	nfree := flag.Int("nfree", 20, "free worlds")
 	empty := flag.Bool("empty", true, "include zero-length sends")
 	nbulk := flag.Int("nbulk", 4, "bulk-transfer worlds over real TCP")
+	racef := flag.String("race", "race.ndjson", "race-round traces")
+	nrace := flag.Int("nrace", 0, "race rounds: number of sessions whose two loops leave at the same moment")
 	flag.Parse()
 	rng := rand.New(rand.NewSource(*seed))
 	quiet = ulog.NewSimpleLogger("error")
 	quiet.SetLevel(zapcore.FatalLevel + 1)
 
 	w := tr.Create(*out)
-	fw := tr.Create(*free) // both files exist even if the run ends early on a stuck observation
-	var optList []opts     // option combinations drawn by the plans, in order of first appearance
+	fw := tr.Create(*free) // all files exist even if the run ends early on a stuck observation
+	rw := tr.Create(*racef)
+	var optList []opts // option combinations drawn by the plans, in order of first appearance
 	seenOpt := map[opts]bool{}
 	if *plans != "" {
 		files, _ := filepath.Glob(filepath.Join(*plans, "*.ndjson"))
@@ -1778,6 +1781,12 @@ func main() {
 	if w.N() > 0 && !attributed {
 		tr.Fatal("no goroutine could be attributed to any session (stack dump format changed?)")
 	}
+	rx := qx.New(0)
+	rx.Budget = budget
+	for done := 0; done < *nrace; done += 128 {
+		runRace(rw, rng, rx, 128)
+	}
+	rw.Close()
 	ok := true
 	for i := 0; i < *nfree && ok; i++ {
 		ok = runFree(fw, rng, i) // one unexplained world is enough; the next ones would wait as long
